@@ -44,7 +44,15 @@ Fixpoint consume (fuel : nat) (it : iterd) (want : option nat) (sthrow : option 
 Inductive tcase :=
 | CProg (fnmode : bool) (prog : stmts) (sc : list bool) (otrace : list event) (oout : outcome)
 | CBuiltin (it : iterd) (want : option nat) (sthrow : option (nat * nat)) (otrace : list event) (oout : outcome)
+| CGenCatch (it : iterd) (want : nat) (otrace : list event) (oout : outcome)
 | CFail.
+
+(* a generator body  try { yield* it  |  for (x of it) yield x } catch (e) { ev 900; throw e }  driven by [want] next()
+   calls and then return(): whatever is thrown while stepping or closing the iterator is thrown at the suspended
+   position of the body, so the body's catch clause runs (and rethrows) *)
+Definition gen_catch (it : iterd) (want : nat) : list event * outcome :=
+  let '(t, o) := consume 200 it (Some want) None 0 in
+  match o with OThrow v => (t ++ [EEv 900], OThrow v) | _ => (t, o) end.
 
 Fixpoint trace_eqb (a b : list event) : bool :=
   match a, b with
@@ -63,6 +71,7 @@ Definition model_S (c : tcase) : list event * outcome :=
   match c with
   | CProg fm p sc _ _ => run_S sfuel fm p sc
   | CBuiltin it w st _ _ => consume 200 it w st 0
+  | CGenCatch it w _ _ => gen_catch it w
   | CFail => ([], OStuck)
   end.
 
@@ -70,6 +79,7 @@ Definition model_I (c : tcase) : list event * outcome :=
   match c with
   | CProg fm p sc _ _ => run_I ifuel fm p sc
   | CBuiltin it w st _ _ => consume 200 it w st 0
+  | CGenCatch it w _ _ => gen_catch it w
   | CFail => ([], OStuck)
   end.
 
@@ -77,6 +87,7 @@ Definition observed (c : tcase) : list event * outcome :=
   match c with
   | CProg _ _ _ t o => (t, o)
   | CBuiltin _ _ _ t o => (t, o)
+  | CGenCatch _ _ t o => (t, o)
   | CFail => ([], OValue VUndef)
   end.
 
